@@ -14,63 +14,68 @@ From IBL.C11 Require Import Model Proofs Run.
 Import ListNotations.
 Open Scope Z_scope.
 
+(* isz is the item size of the `dtype` argument (2 for the default int16); frame = isz * nc bytes.
+   isz_ok isz: isz is 1, 2, 4 or 8 (needed only where OnlineReader's float division by isz must be exact). *)
+
 (* 1. Unbounded, independent of any float reasoning: an open that succeeds maps
-   no more than the file holds (ns*nc*2 <= nbytes), hence exposes at most the
+   no more than the file holds (ns*nc*isz <= nbytes), hence exposes at most the
    complete frames — for either reader class and whatever the meta file says. *)
-Theorem C11_opened_within_file : forall online nbytes nc fts fs ns nc' fts' rw,
-  1 <= nc ->
-  open_bin online nbytes nc fts fs = Opened ns nc' fts' rw ->
-  nc' = nc /\ 0 <= ns /\ ns * nc * 2 <= nbytes /\ ns <= nbytes / (2 * nc).
+Theorem C11_opened_within_file : forall online isz nbytes nc fts fs ns nc' fts' rw,
+  1 <= nc -> 1 <= isz ->
+  open_bin online isz nbytes nc fts fs = Opened ns nc' fts' rw ->
+  nc' = nc /\ 0 <= ns /\ ns * nc * isz <= nbytes /\ ns <= nbytes / (isz * nc).
 Proof. exact opened_within_file. Qed.
 Print Assumptions C11_opened_within_file.
 
-(* 2. Unbounded: every element (i, j) of the exposed (ns, nc) int16 array lies
+(* 2. Unbounded: every element (i, j) of the exposed (ns, nc) array lies
    inside the file, distinct elements are distinct cells, and the cells are
-   exactly the first ns*nc int16 of the file (the array IS the file's prefix;
+   exactly the first ns*nc items of the file (the array IS the file's prefix;
    no read within the shape goes beyond the file). *)
-Theorem C11_reads_within_file : forall nbytes ns nc, 1 <= nc -> ns * nc * 2 <= nbytes ->
+Theorem C11_reads_within_file : forall isz nbytes ns nc, 1 <= nc -> 1 <= isz -> ns * nc * isz <= nbytes ->
   (forall i j, 0 <= i < ns -> 0 <= j < nc ->
-     0 <= byte_offset nc i j /\ byte_offset nc i j + 2 <= ns * nc * 2 /\ byte_offset nc i j + 2 <= nbytes) /\
+     0 <= byte_offset isz nc i j /\ byte_offset isz nc i j + isz <= ns * nc * isz /\
+     byte_offset isz nc i j + isz <= nbytes) /\
   (forall i j i' j', 0 <= j < nc -> 0 <= j' < nc ->
-     byte_offset nc i j = byte_offset nc i' j' -> i = i' /\ j = j') /\
+     byte_offset isz nc i j = byte_offset isz nc i' j' -> i = i' /\ j = j') /\
   (forall c, 0 <= c < ns * nc ->
-     byte_offset nc (c / nc) (c mod nc) = 2 * c /\ 0 <= c / nc < ns /\ 0 <= c mod nc < nc).
+     byte_offset isz nc (c / nc) (c mod nc) = isz * c /\ 0 <= c / nc < ns /\ 0 <= c mod nc < nc).
 Proof.
-  intros nbytes ns nc Hnc Hle. split; [|split].
-  - intros i j. exact (reads_within_file nbytes ns nc i j Hnc Hle).
-  - intros i j i' j'. exact (byte_offset_inj nc i j i' j' Hnc).
-  - intros c Hc. exact (prefix_cells ns nc c Hnc Hc).
+  intros isz nbytes ns nc Hnc Hisz Hle. split; [|split].
+  - intros i j. exact (reads_within_file isz nbytes ns nc i j Hnc Hisz Hle).
+  - intros i j i' j'. exact (byte_offset_inj isz nc i j i' j' Hnc Hisz).
+  - intros c Hc. exact (prefix_cells isz ns nc c Hnc Hc).
 Qed.
 Print Assumptions C11_reads_within_file.
 
 (* 3. Reader (offline), meta file with a fileTimeSecs entry that Reader.ns can
    convert (ns0): whatever that entry claims — more, fewer or as many frames —
    and whatever number of trailing bytes the file has, the open succeeds and
-   exposes exactly k = floor(nbytes / (2 nc)) frames; fileTimeSecs is rewritten
+   exposes exactly k = floor(nbytes / (isz nc)) frames; fileTimeSecs is rewritten
    exactly when the claim disagrees with the size, and then to k / fs = rl. *)
-Theorem C11_offline_exposes_floor : forall nbytes nc t fs ns0,
-  1 <= nc -> 1 <= nbytes -> nbytes / (2 * nc) <= 2 ^ 50 -> fs_ok fs ->
+Theorem C11_offline_exposes_floor : forall isz nbytes nc t fs ns0,
+  1 <= nc -> 1 <= isz -> 1 <= nbytes -> nbytes / (isz * nc) <= 2 ^ 50 -> fs_ok fs ->
   ns_meta (Some t) fs = NsOk ns0 ->
-  let k := nbytes / (2 * nc) in
-  let rw := negb (nc * ns0 * 2 =? nbytes) in
-  open_bin false nbytes nc (Some t) fs =
+  let k := nbytes / (isz * nc) in
+  let rw := negb (nc * ns0 * isz =? nbytes) in
+  open_bin false isz nbytes nc (Some t) fs =
     Opened k nc (if rw then Some (rl k fs) else Some t) rw.
 Proof. exact open_offline_floor. Qed.
 Print Assumptions C11_offline_exposes_floor.
 
-(* 4. OnlineReader: int(st_size / 2 / nc) is the floor, for st_size, nc < 2^53;
+(* 4. OnlineReader: int(st_size / isz / nc) is the floor, for st_size, isz*nc < 2^53;
    the open succeeds whatever the meta file holds. *)
-Theorem C11_online_exposes_floor : forall nbytes nc fts fs,
-  1 <= nc < 2 ^ 53 -> 1 <= nbytes < 2 ^ 53 ->
-  let k := nbytes / (2 * nc) in
-  let rw := negb (nc * k * 2 =? nbytes) in
-  open_bin true nbytes nc fts fs =
+Theorem C11_online_exposes_floor : forall isz nbytes nc fts fs,
+  isz_ok isz -> 1 <= nc -> isz * nc < 2 ^ 53 -> 1 <= nbytes < 2 ^ 53 ->
+  let k := nbytes / (isz * nc) in
+  let rw := negb (nc * k * isz =? nbytes) in
+  open_bin true isz nbytes nc fts fs =
     Opened k nc (if rw then Some (rl k fs) else fts) rw.
 Proof. exact open_online_floor. Qed.
 Print Assumptions C11_online_exposes_floor.
 
-Theorem C11_online_ns_is_floor : forall nbytes nc,
-  0 <= nbytes < 2 ^ 53 -> 1 <= nc < 2 ^ 53 -> ns_online nbytes nc = NsOk (nbytes / (2 * nc)).
+Theorem C11_online_ns_is_floor : forall isz nbytes nc,
+  isz_ok isz -> 0 <= nbytes < 2 ^ 53 -> 1 <= nc -> isz * nc < 2 ^ 53 ->
+  ns_online isz nbytes nc = NsOk (nbytes / (isz * nc)).
 Proof. exact ns_online_floor. Qed.
 Print Assumptions C11_online_ns_is_floor.
 
@@ -99,39 +104,41 @@ Print Assumptions C11_cbin_short_stream.
    yet and the file ends in a partial frame (any number of trailing bytes).
    OnlineReader opens, exposes the floor frame count and writes
    fileTimeSecs = k / fs = rl (since repair 381463f the warning cannot raise). *)
-Theorem C11_online_in_progress : forall nbytes nc fs,
-  1 <= nc < 2 ^ 53 -> 1 <= nbytes < 2 ^ 53 -> nbytes mod (2 * nc) <> 0 ->
-  let k := nbytes / (2 * nc) in
-  open_bin true nbytes nc None fs = Opened k nc (Some (rl k fs)) true.
+Theorem C11_online_in_progress : forall isz nbytes nc fs,
+  isz_ok isz -> 1 <= nc -> isz * nc < 2 ^ 53 -> 1 <= nbytes < 2 ^ 53 -> nbytes mod (isz * nc) <> 0 ->
+  let k := nbytes / (isz * nc) in
+  open_bin true isz nbytes nc None fs = Opened k nc (Some (rl k fs)) true.
 Proof. exact open_online_in_progress. Qed.
 Print Assumptions C11_online_in_progress.
 
 (* 8. The offline Reader on such a meta file: Reader.ns needs fileTimeSecs, so
    the open raises TypeError (None * float) for every file, whatever its size —
    the offline class cannot open a recording in progress; OnlineReader is the
-   class for that (theorems 4, 7). *)
-Theorem C11_offline_needs_fileTimeSecs : forall nbytes nc fs,
-  open_bin false nbytes nc None fs = TypeErr.
+   class for that (theorems 4, 7, 10). *)
+Theorem C11_offline_needs_fileTimeSecs : forall isz nbytes nc fs,
+  open_bin false isz nbytes nc None fs = TypeErr.
 Proof. exact open_offline_no_fts. Qed.
 Print Assumptions C11_offline_needs_fileTimeSecs.
 
 (* ---- the reader as a stateful object on a file whose size changes ---- *)
 
 (* 9. open_bin (theorems 1-8) is open_at with the constructor's size = the current size *)
-Theorem C11_open_bin_is_open_at : forall online nbytes nc fts fs,
-  open_bin online nbytes nc fts fs = fst (open_at online nbytes nbytes nc fts fs).
+Theorem C11_open_bin_is_open_at : forall online isz nbytes nc fts fs,
+  open_bin online isz nbytes nc fts fs = fst (open_at online isz nbytes nbytes nc fts fs).
 Proof. exact open_bin_open_at. Qed.
 Print Assumptions C11_open_bin_is_open_at.
 
 (* 10. OnlineReader, every history: constructor with open=True or open=False on a file of
    cur0 bytes, then any sequence of "the file now has n bytes" (appends or cuts), sr.open()
-   (first open or re-open) and sr.__enter__() — sizes and nc below 2^53.  At every point sr.ns
+   (first open or re-open) and sr.__enter__() — sizes and isz*nc below 2^53.  At every point sr.ns
    is the floor of the CURRENT size, and every open attempt succeeds and maps exactly the
    floor of the size the file has at that moment (whatever size the constructor cached). *)
-Theorem C11_online_history : forall nc fs fts cur0 do_op ops,
-  1 <= nc < 2 ^ 53 -> 1 <= cur0 < 2 ^ 53 -> Forall op_ok ops ->
-  Forall (online_snap_ok nc) (history true nc fs fts cur0 do_op ops).
-Proof. exact history_online. Qed.
+Theorem C11_online_history : forall isz nc fs fts cur0 do_op ops,
+  isz_ok isz -> 1 <= nc -> isz * nc < 2 ^ 53 -> 1 <= cur0 < 2 ^ 53 -> Forall op_ok ops ->
+  Forall (online_snap_ok isz nc) (history true isz nc fs fts cur0 do_op ops).
+Proof.
+  intros isz nc fs fts cur0 do_op ops Hi Hnc Hinc. exact (history_online isz nc Hi Hnc Hinc fs fts cur0 do_op ops).
+Qed.
 Print Assumptions C11_online_history.
 
 (* 11. Offline Reader, the exact truth when the constructor saw `cached` bytes and the file has
@@ -139,14 +146,14 @@ Print Assumptions C11_online_history.
    Claim disagrees with the cached size: floor of the CURRENT size, fileTimeSecs rewritten.
    Claim agrees with the cached size: the claim ns0 is mapped as it is, checked by np.memmap
    against the current file. *)
-Theorem C11_offline_open_exact : forall cached cur nc t fs ns0,
-  1 <= nc -> 1 <= cur -> cur / (2 * nc) <= 2 ^ 50 -> fs_ok fs ->
+Theorem C11_offline_open_exact : forall isz cached cur nc t fs ns0,
+  1 <= nc -> 1 <= isz -> 1 <= cur -> cur / (isz * nc) <= 2 ^ 50 -> fs_ok fs ->
   ns_meta (Some t) fs = NsOk ns0 ->
-  let k := cur / (2 * nc) in
-  open_at false cached cur nc (Some t) fs =
-    if negb (nc * ns0 * 2 =? cached)
+  let k := cur / (isz * nc) in
+  open_at false isz cached cur nc (Some t) fs =
+    if negb (nc * ns0 * isz =? cached)
     then (Opened k nc (Some (rl k fs)) true, Some (rl k fs))
-    else (if memmap_ok cur ns0 nc then Opened ns0 nc (Some t) false else MmapError, Some t).
+    else (if memmap_ok isz cur ns0 nc then Opened ns0 nc (Some t) false else MmapError, Some t).
 Proof. exact open_at_offline. Qed.
 Print Assumptions C11_offline_open_exact.
 
@@ -154,17 +161,18 @@ Print Assumptions C11_offline_open_exact.
    Reader(file, open=False) on a file that agrees with its meta file, the file changes, open():
    after an append the frames added since the constructor are NOT exposed (ns0 < floor(cur) as soon
    as a whole frame was added); after a cut np.memmap raises. *)
-Theorem C11_offline_stale_size_refuted : forall cached cur nc t fs ns0,
-  1 <= nc -> 0 <= ns0 -> ns_meta (Some t) fs = NsOk ns0 -> nc * ns0 * 2 = cached ->
-  (1 <= cached -> cached + 2 * nc <= cur ->
-     open_at false cached cur nc (Some t) fs = (Opened ns0 nc (Some t) false, Some t) /\
-     ns0 < cur / (2 * nc)) /\
-  (cur < cached -> open_at false cached cur nc (Some t) fs = (MmapError, Some t)).
+Theorem C11_offline_stale_size_refuted : forall isz cached cur nc t fs ns0,
+  1 <= nc -> 1 <= isz -> 0 <= ns0 -> ns_meta (Some t) fs = NsOk ns0 -> nc * ns0 * isz = cached ->
+  (1 <= cached -> cached + isz * nc <= cur ->
+     (open_at false isz cached cur nc (Some t) fs = (Opened ns0 nc (Some t) false, Some t)) /\
+     (ns0 < cur / (isz * nc))) /\
+  (cur < cached -> open_at false isz cached cur nc (Some t) fs = (MmapError, Some t)).
 Proof.
-  intros cached cur nc t fs ns0 Hnc Hns Hm Hc. split.
-  - intros H1 H2. split; [apply (open_at_offline_stale_grow cached cur nc t fs ns0); auto; lia|].
-    assert (ns0 + 1 <= cur / (2 * nc)) by (apply Z.div_le_lower_bound; nia). lia.
-  - intros H. apply (open_at_offline_stale_cut cached cur nc t fs ns0); auto.
+  intros isz cached cur nc t fs ns0 Hnc Hisz Hns Hm Hc. split.
+  - intros H1 H2. split; [apply (open_at_offline_stale_grow isz cached cur nc t fs ns0); auto; lia|].
+    assert (0 < isz * nc) by nia.
+    assert (ns0 + 1 <= cur / (isz * nc)) by (apply Z.div_le_lower_bound; nia). lia.
+  - intros H. apply (open_at_offline_stale_cut isz cached cur nc t fs ns0); auto.
 Qed.
 Print Assumptions C11_offline_stale_size_refuted.
 
@@ -186,25 +194,25 @@ Local Open Scope Z_scope.
 (* 22 frames of 385 channels + 386 trailing bytes, meta claiming 22/30000 + 1.8324 s *)
 Example ex_meta_claim : ns_meta (Some (of_me 8255698596920435 (-52))) (of_me 30000 0) = NsOk 54994.
 Proof. vm_compute. reflexivity. Qed.
-Example ex_offline : run [0; 0; 0; 1; 385 * 2 * 22 + 386; 385; 30000; 0; 1; 8255698596920435; -52]
+Example ex_offline : run [0; 0; 0; 2; 385 * 2 * 22 + 386; 385; 30000; 0; 1; 8255698596920435; -52]
                      = [0; 22; 385; 1; 3; 0; 6763806160360169; -63; 3; 0; 6763806160360169; -63].
 Proof. vm_compute. reflexivity. Qed.
 (* same file, fs = 30000.123, OnlineReader, meta of a recording in progress, ignore_warnings=True:
    no warning logged *)
-Example ex_online : run [0; 1; 1; 0; 385 * 2 * 22 + 386; 385; 8246371018302554; -38; 0; 0; 0]
+Example ex_online : run [0; 1; 1; 2; 385 * 2 * 22 + 386; 385; 8246371018302554; -38; 0; 0; 0]
                     = [0; 22; 385; 0; 3; 0; 6763778428868611; -63; 3; 0; 6763778428868611; -63].
 Proof. vm_compute. reflexivity. Qed.
 (* same, ignore_warnings=False: opens as well, warning logged *)
-Example ex_online_warned : run [0; 1; 0; 0; 385 * 2 * 22 + 386; 385; 8246371018302554; -38; 0; 0; 0]
+Example ex_online_warned : run [0; 1; 0; 2; 385 * 2 * 22 + 386; 385; 8246371018302554; -38; 0; 0; 0]
                     = [0; 22; 385; 1; 3; 0; 6763778428868611; -63; 3; 0; 6763778428868611; -63].
 Proof. vm_compute. reflexivity. Qed.
 (* offline Reader on the in-progress meta file: TypeError *)
-Example ex_offline_typeerror : run [0; 0; 0; 0; 385 * 2 * 22 + 386; 385; 8246371018302554; -38; 0; 0; 0] = [3].
+Example ex_offline_typeerror : run [0; 0; 0; 2; 385 * 2 * 22 + 386; 385; 8246371018302554; -38; 0; 0; 0] = [3].
 Proof. vm_compute. reflexivity. Qed.
 
 (* histories: OnlineReader(open=False) on 34 bytes (nc=5), file grows to 259 bytes, open(), grows to 400, re-open *)
 Example ex_history_online :
-  run [2; 1; 0; 5; 30000; 0; 0; 0; 0; 34; 0;  0; 259; 1; 0; 0; 400; 2; 0; 1; 0]
+  run [2; 1; 0; 2; 5; 30000; 0; 0; 0; 0; 34; 0;  0; 259; 1; 0; 0; 400; 2; 0; 1; 0]
   = [9;0; 0;3; -1; 4;0;0;0; 3;0;7378697629483821;-66;
      9;0; 0;25; -1; 4;0;0;0; 3;0;7686143364045647;-63;
      0;1; 0;25; 25; 3;0;7686143364045647;-63; 3;0;7686143364045647;-63;
@@ -214,6 +222,12 @@ Example ex_history_online :
 Proof. vm_compute. reflexivity. Qed.
 (* the witness of theorem 12: meta claims 3 frames = 30 bytes = size at construction; file grows to 100 bytes *)
 Example ex_stale_offline :
-  fst (open_at false 30 100 5 (Some (fdiv (of_Z 3) (of_me 30000 0))) (of_me 30000 0)) =
-  Opened 3 5 (Some (fdiv (of_Z 3) (of_me 30000 0))) false.
+  match fst (open_at false 2 30 100 5 (Some (fdiv (of_Z 3) (of_me 30000 0))) (of_me 30000 0)) with
+  | Opened ns nc _ rw => (ns =? 3) && (nc =? 5) && negb rw && (ns <? 100 / (2 * 5))
+  | _ => false
+  end = true.
+Proof. vm_compute. reflexivity. Qed.
+(* dtype='int32' (item size 4), 3 channels, 5 frames + 7 bytes, meta claiming 9 frames, OnlineReader and Reader *)
+Example ex_int32_online : run [0; 1; 1; 4; 12 * 5 + 7; 3; 30000; 0; 0; 0; 0]
+                          = [0; 5; 3; 0; 3; 0; 6148914691236517; -65; 3; 0; 6148914691236517; -65].
 Proof. vm_compute. reflexivity. Qed.
